@@ -428,7 +428,60 @@ for _f, _id in ((dtab_node_update, "C09.DTAB-node-update"), (dtab_run, "C09.DTAB
                 (sign_count, "C09.SIGN-count")):
     _f.rule_id = _id
 
-RULES = [dtab_node_update, dtab_run, wmc_handlers, guard_inuse, sign_unsub, sign_count]
+def dom_marker_reset(ctx, prog):
+    R = "C09.DOM-marker-reset"
+    ctx.rule(R, "stabilise_end clears every node's is_in_handle_after_stabilisation marker while draining the queue, "
+                "before any handler runs: a handler that subscribes / queues the node again must find the marker clear, "
+                "otherwise the request is dropped and the new subscription misses its Initialised")
+    F = ctx.need_fn(R, q.STATE + "stabilise_end")
+    if F is None:
+        return
+    fns = prog.with_closures(F)
+    resets, runs = [], []
+    for G in fns:
+        du = DefUse(G)
+        for t in G.calls():
+            if q.callee_is(t, "core::cell::Cell::set") and t.arg_place(0) is not None:
+                recv = expr(G, t.args[0], du)
+                if mentions(recv, lambda x: x[0] == "call" and x[1].endswith("is_in_handle_after_stabilisation")):
+                    resets.append((G, t))
+            if q.callee_is(t, "ErasedNode>::run_on_update_handlers", "ErasedNode::run_on_update_handlers"):
+                runs.append((G, t))
+    ctx.site(R, F, "marker resets %s; handler runs %s" % ([(g.short, t.bb) for g, t in resets], [(g.short, t.bb) for g, t in runs]))
+    if not resets or not runs:
+        ctx.missing(R, "marker reset / run_on_update_handlers in stabilise_end")
+        return
+    bad = None
+    for g, t in resets:
+        for g2, t2 in runs:
+            if g is g2:
+                c = g.cfg()
+                if t.bb in c.reach({t2.bb}) and t.bb != t2.bb:
+                    bad = (g, t, t2)
+            # different closures: the reset closure must be created/run before the handler closure in F (drain first)
+    if bad is None and resets[0][0] is not runs[0][0]:
+        # order of the two phases inside stabilise_end itself: block of the closure aggregate / call
+        def phase_bb(G):
+            if G is F:
+                return None
+            for st in F.stmts():
+                rv = st.rv or {}
+                if "agg" in rv and isinstance(rv["agg"], dict) and rv["agg"].get("closure") == G.path:
+                    return st.bb
+            return None
+        pr, ph = phase_bb(resets[0][0]), phase_bb(runs[0][0])
+        if pr is not None and ph is not None and pr != ph and pr in F.cfg().reach({ph}):
+            bad = (F, resets[0][1], runs[0][1])
+    if bad:
+        ctx.fail(R, "reset-before-handlers", "the marker of a handled node is cleared after its handlers have run: a "
+                 "subscription made by a handler is not queued for its Initialised notification", fn=bad[0], span=bad[1].span)
+    else:
+        ctx.ok(R, "reset-before-handlers")
+
+
+dom_marker_reset.rule_id = "C09.DOM-marker-reset"
+
+RULES = [dtab_node_update, dtab_run, wmc_handlers, guard_inuse, sign_unsub, sign_count, dom_marker_reset]
 
 # control signature of the bookkeeping effects this property depends on (rules/ctrlsig.py)
 from .ctrlsig import make_rule as _ctrl_rule  # noqa: E402
